@@ -479,6 +479,9 @@ struct Sim<'a> {
     /// persist part: coordinator state is written through to a store (save_to_store after every
     /// event) and the coordinator / participants are restarted from what they persisted
     persist: Option<Persist>,
+    /// decisions handed out by get_pending_decisions() (after a restart, or when the driver polls the
+    /// running coordinator), announced, not yet completed
+    indoubt: BTreeMap<usize, Dec>,
 }
 
 const PERSIST_TIMEOUT_MS: u64 = 12;
@@ -486,8 +489,6 @@ const PERSIST_TIMEOUT_MS: u64 = 12;
 struct Persist {
     cstore: TensorStore,
     restarts: u32,
-    /// decisions handed out by get_pending_decisions() after a restart, not yet completed
-    indoubt: BTreeMap<usize, Dec>,
     outages_left: u32,
     delays_left: u32,
     participant_restarts_left: u32,
@@ -520,6 +521,8 @@ fn short_src(src: &str) -> &'static str {
         "abort-broadcast-queue"
     } else if src.contains("record_vote") {
         "no-vote"
+    } else if src.contains("running coordinator") {
+        "decision-poll"
     } else if src.contains("get_pending_decisions") {
         "recovery-list"
     } else if src.contains("complete_commit") {
@@ -605,9 +608,7 @@ impl<'a> Sim<'a> {
             self.bump(if d == Dec::Commit { "persist:commit-handed-out-by-recovery" } else { "persist:abort-handed-out-by-recovery" });
             self.decide(i, d, "listed by get_pending_decisions() after recover()");
             self.send_decision(i, d);
-            if let Some(p) = self.persist.as_mut() {
-                p.indoubt.insert(i, d);
-            }
+            self.indoubt.insert(i, d);
         }
         for i in 0..self.obs.len() {
             if let Some(id) = self.obs[i].id {
@@ -618,9 +619,30 @@ impl<'a> Sim<'a> {
         }
         self.persist_coord();
     }
+    /// the driver loop polls the running coordinator for decisions it has to (re-)broadcast, e.g.
+    /// after a commit()/abort() call came back with an error, and announces what is listed
+    fn poll_decisions(&mut self) {
+        self.bump("ev:decision-poll");
+        for (id, phase) in self.coord.get_pending_decisions() {
+            let Some(i) = self.tx_of_id(id) else { continue };
+            let d = match phase {
+                TxPhase::Committing => Dec::Commit,
+                TxPhase::Aborting => Dec::Abort,
+                _ => continue,
+            };
+            if self.indoubt.get(&i) == Some(&d) {
+                continue; // already announced, completion outstanding
+            }
+            self.trace.push(format!("poll-list(t{})={:?}", i, d));
+            self.bump(if d == Dec::Commit { "poll:commit-listed" } else { "poll:abort-listed" });
+            self.decide(i, d, "listed by get_pending_decisions() on the running coordinator");
+            self.send_decision(i, d);
+            self.indoubt.insert(i, d);
+        }
+    }
     /// the broadcast of a recovered decision has been acknowledged: the coordinator completes it
     fn complete_indoubt(&mut self, i: usize) {
-        let Some(d) = self.persist.as_mut().and_then(|p| p.indoubt.remove(&i)) else { return };
+        let Some(d) = self.indoubt.remove(&i) else { return };
         let Some(id) = self.obs[i].id else { return };
         let ok = if d == Dec::Commit { self.coord.complete_commit(id).is_ok() } else { self.coord.complete_abort(id).is_ok() };
         self.trace.push(format!("complete(t{},{:?})={}", i, d, if ok { "ok" } else { "refused" }));
@@ -653,6 +675,7 @@ impl<'a> Sim<'a> {
         let path = w.path.clone();
         let was_refusing = w.refusing;
         w.restarted = true;
+        self.indoubt.clear(); // the driver's memory dies with the process
         self.trace.push("CRASH+RESTART".to_string());
         let wal = match tensor_chain::tx_wal::TxWal::open(&path) {
             Ok(x) => x,
@@ -947,10 +970,11 @@ fn sim_case_flavor(case_seed: u64, rep: &mut Report, wal_path: Option<std::path:
         c: BTreeMap::new(),
         wal: wal_path.map(|path| WalFault { path, refusing: false, restarted: false }),
         persist: if persist {
-            Some(Persist { cstore: TensorStore::new(), restarts: 0, indoubt: BTreeMap::new(), outages_left: 1, delays_left: 1, participant_restarts_left: 2 })
+            Some(Persist { cstore: TensorStore::new(), restarts: 0, outages_left: 1, delays_left: 1, participant_restarts_left: 2 })
         } else {
             None
         },
+        indoubt: BTreeMap::new(),
     };
     // per-case fault profile
     let p_dup = rng.below(25) as u32;
@@ -982,9 +1006,10 @@ fn sim_case_flavor(case_seed: u64, rep: &mut Report, wal_path: Option<std::path:
             w_misroute,
             // persist part: coordinator crash, completion of a recovered decision, participant restart, delay
             if sim.persist.as_ref().map(|p| p.restarts < 3).unwrap_or(false) { 2 } else { 0 },
-            if sim.persist.as_ref().map(|p| !p.indoubt.is_empty()).unwrap_or(false) { 3 } else { 0 },
+            if !sim.indoubt.is_empty() { 3 } else { 0 },
             if sim.persist.as_ref().map(|p| p.participant_restarts_left > 0).unwrap_or(false) { 2 } else { 0 },
             if sim.persist.as_ref().map(|p| p.delays_left > 0).unwrap_or(false) { 1 } else { 0 },
+            if walfault { 3 } else { 1 },
         ];
         if w.iter().sum::<u32>() == 0 {
             break;
@@ -1016,12 +1041,13 @@ fn sim_case_flavor(case_seed: u64, rep: &mut Report, wal_path: Option<std::path:
             4 => sim.coord_abort(rng.below(n)),
             5 => sim.sweep(),
             6 => sim.take_aborts(),
+            13 => sim.poll_decisions(),
             9 => {
                 let outage = sim.persist.as_ref().map(|p| p.outages_left > 0).unwrap_or(false) && rng.bool();
                 sim.crash_and_reload(outage);
             }
             10 => {
-                let open: Vec<usize> = sim.persist.as_ref().map(|p| p.indoubt.keys().copied().collect()).unwrap_or_default();
+                let open: Vec<usize> = sim.indoubt.keys().copied().collect();
                 if !open.is_empty() {
                     sim.complete_indoubt(*rng.pick(&open));
                 }
@@ -1088,7 +1114,7 @@ fn sim_case_flavor(case_seed: u64, rep: &mut Report, wal_path: Option<std::path:
                 sim.obs[i].ready = false; // refused (e.g. swept meanwhile); the sweep below settles it
             }
         }
-        let open: Vec<usize> = sim.persist.as_ref().map(|p| p.indoubt.keys().copied().collect()).unwrap_or_default();
+        let open: Vec<usize> = sim.indoubt.keys().copied().collect();
         for i in open {
             sim.complete_indoubt(i);
         }
@@ -1110,6 +1136,16 @@ fn sim_case_flavor(case_seed: u64, rep: &mut Report, wal_path: Option<std::path:
         let k = rng.below(sim.net.len());
         let m = sim.net.swap_remove(k);
         sim.process(m);
+    }
+    // every decision has been delivered: whatever a participant still holds as prepared is a
+    // leftover of a late duplicate PREPARE; the participant's stale sweep rolls it back, which
+    // must not change the shard (clause d)
+    for s in 0..plan.shards {
+        let swept = sim.parts[s].cleanup_stale(Duration::ZERO);
+        if !swept.is_empty() {
+            sim.bump("ev:stale-prepared-entries-swept");
+            check_shard(s, sim.parts[s].store(), &sim.reference[s], &sim.obs, "stale sweep of leftover prepared entries", &mut sim.found);
+        }
     }
     final_oracle(&plan, &sim.parts, &sim.obs, &mut sim.found);
 
@@ -1249,8 +1285,14 @@ fn threaded_case(case_seed: u64, rep: &mut Report) {
         for (i, t) in plan.txs.iter_mut().enumerate() {
             for (s, ops) in t.ops.iter_mut() {
                 let fill = 100 + rng.below(1400);
+                let pad = [0usize, 64, 512][rng.below(3)];
                 let mut v: Vec<Transaction> = (0..fill)
-                    .map(|j| Transaction::Put { key: format!("f{}_{}", i, j), data: format!("t{}:s{}:f{}", i, s, j).into_bytes() })
+                    .map(|j| {
+                        // fat values: applying a commit takes longer
+                        let mut data = format!("t{}:s{}:f{}:", i, s, j).into_bytes();
+                        data.resize(data.len() + pad, b'.');
+                        Transaction::Put { key: format!("f{}_{}", i, j), data }
+                    })
                     .collect();
                 for op in ops.drain(..) {
                     let at = rng.below(v.len() + 1);
@@ -1431,6 +1473,13 @@ fn threaded_case(case_seed: u64, rep: &mut Report) {
             }
         }
     }
+    // leftovers of late duplicate PREPAREs are rolled back by the participants' stale sweep; that
+    // must not touch what committed transactions wrote (checked by the final-state clauses)
+    let mut swept = 0u64;
+    for p in &sh.parts {
+        swept += p.cleanup_stale(Duration::ZERO).len() as u64;
+    }
+    rep.count("threaded:stale-prepared-entries-swept", swept);
     let obs = sh.obs.lock().clone();
     let mut found = std::mem::take(&mut *sh.found.lock());
     final_oracle(&sh.plan, &sh.parts, &obs, &mut found);
@@ -1533,6 +1582,86 @@ fn burst_case(case_seed: u64, rep: &mut Report) {
     rep.count("threaded:same-tx-burst-rounds", done);
     rep.count("threaded:same-tx-burst-rounds-with-later-commit", t0_committed);
     rep.eval(case_seed ^ 0xB0B, t0_committed > 0);
+}
+
+/// Duplicates of a transaction's PREPARE handled by one participant at the same moment as its
+/// COMMIT (threads released by a barrier; the transaction writes many keys with fat values so that
+/// applying takes a while). Afterwards, sequentially: the participant's stale sweep rolls back
+/// whatever prepared entry is left over. Clause (c'): the writes of the committed transaction
+/// must all still be there.
+fn burst_commit_case(case_seed: u64, rep: &mut Report) {
+    let mut rng = Rng::new(case_seed);
+    let p = Arc::new(TxParticipant::new(TensorStore::new()));
+    let rounds = 150u64;
+    let mut committed = 0u64;
+    let mut leftovers = 0u64;
+    let mut done = 0u64;
+    for it in 0..rounds {
+        done += 1;
+        let t1 = case_seed.wrapping_mul(4096).wrapping_add(it + 1);
+        let nkeys = 40 + rng.below(260);
+        let pad = [64usize, 512, 2048][rng.below(3)];
+        let ops: Vec<Transaction> = (0..nkeys)
+            .map(|j| {
+                let mut data = format!("t1:s0:{}:{}:", it, j).into_bytes();
+                data.resize(data.len() + pad, b'.');
+                Transaction::Put { key: format!("r{}k{}", it, j), data }
+            })
+            .collect();
+        if !matches!(p.prepare(prepare_request(t1, &ops)), PrepareVote::Yes { .. }) {
+            continue;
+        }
+        let dups = 1 + rng.below(2);
+        let bar = Arc::new(std::sync::Barrier::new(dups + 1));
+        let ok = std::sync::atomic::AtomicBool::new(false);
+        std::thread::scope(|sc| {
+            for who in 0..=dups {
+                let (p, bar, ops, ok) = (p.clone(), bar.clone(), &ops, &ok);
+                sc.spawn(move || {
+                    bar.wait();
+                    if who < dups {
+                        if who == 1 {
+                            std::thread::yield_now();
+                        }
+                        let _ = p.prepare(prepare_request(t1, ops));
+                    } else if p.commit(t1).success {
+                        ok.store(true, std::sync::atomic::Ordering::SeqCst);
+                    }
+                });
+            }
+        });
+        // quiescent from here on: the commit was acknowledged; roll back leftovers of the duplicates
+        if !ok.load(std::sync::atomic::Ordering::SeqCst) {
+            let _ = p.abort(t1);
+            continue;
+        }
+        committed += 1;
+        leftovers += p.cleanup_stale(Duration::ZERO).len() as u64;
+        let mut lost = Vec::new();
+        for (j, op) in ops.iter().enumerate() {
+            if let Transaction::Put { key, data } = op {
+                let have = p.store().get(key).ok().map(|d| tag_of(&d));
+                if have.as_deref() != Some(&String::from_utf8_lossy(data)) {
+                    lost.push(j);
+                }
+            }
+        }
+        if !lost.is_empty() {
+            rep.violation(
+                "threaded:committed-write-lost:duplicate-prepare-during-commit-of-the-same-tx",
+                format!(
+                    "round {}: COMMIT(T1) ({} writes of {} bytes) and {} duplicate PREPARE(T1) were handled concurrently by one participant; the commit was acknowledged; after the stale sweep rolled back the leftover prepared entry, {} of T1's keys no longer hold its values (first: #{})",
+                    it, nkeys, pad, dups, lost.len(), lost[0]
+                ),
+                json!({"mode": "burst-commit", "case_seed": case_seed}),
+            );
+            break;
+        }
+    }
+    rep.count("threaded:prepare-vs-commit-burst-rounds", done);
+    rep.count("threaded:prepare-vs-commit-bursts-committed", committed);
+    rep.count("threaded:prepare-vs-commit-leftover-entries-swept", leftovers);
+    rep.eval(case_seed ^ 0xC0B, committed > 0);
 }
 
 /// `c03 witness-race`: two duplicates of PREPARE(T1) and an ABORT(T1) handled at the same time by
@@ -1646,7 +1775,14 @@ fn main() {
         let v: Value = serde_json::from_str(&std::fs::read_to_string(p).expect("replay file")).expect("json");
         let rp = if v.get("replay").is_some() { &v["replay"] } else { &v };
         let seed = rp["case_seed"].as_u64().expect("case_seed");
-        if rp["mode"].as_str() == Some("burst") {
+        if rp["mode"].as_str() == Some("burst-commit") {
+            for _ in 0..50 {
+                burst_commit_case(seed, &mut total);
+                if total.violations_total > 0 {
+                    break;
+                }
+            }
+        } else if rp["mode"].as_str() == Some("burst") {
             for _ in 0..50 {
                 burst_case(seed, &mut total);
                 if total.violations_total > 0 {
@@ -1689,6 +1825,9 @@ fn main() {
             let n = args.extra_u64("burst-cases", args.by_tier(12, 200));
             let rep = par_cases((args.threads / 4).max(1), args.seed ^ 0x7B, n, args.budget(10, 60), |_i, s, r| burst_case(s, r));
             total.merge(rep);
+            let n = args.extra_u64("burst-commit-cases", args.by_tier(12, 200));
+            let rep = par_cases((args.threads / 4).max(1), args.seed ^ 0x7C, n, args.budget(10, 60), |_i, s, r| burst_commit_case(s, r));
+            total.merge(rep);
         }
     }
 
@@ -1719,10 +1858,11 @@ fn main() {
                 ("persist:abort-handed-out-by-recovery", 100),
                 ("persist:participant-restarts", 300),
                 ("persist:delays", 100),
+                ("ev:decision-poll", 1_000),
             ]);
         }
         if mode == "both" || mode == "threaded" {
-            floors.extend([("threaded_cases", 40u64), ("threaded:decided:commit", 15), ("threaded:decided:abort", 20), ("threaded:same-tx-burst-rounds-with-later-commit", 100)]);
+            floors.extend([("threaded_cases", 40u64), ("threaded:decided:commit", 15), ("threaded:decided:abort", 20), ("threaded:same-tx-burst-rounds-with-later-commit", 100), ("threaded:prepare-vs-commit-bursts-committed", 200), ("threaded:prepare-vs-commit-leftover-entries-swept", 20)]);
         }
     }
     let meta = Meta {
